@@ -112,7 +112,13 @@ fn run_view(l: &[Sx], hydrate_html: Option<String>) -> Vec<String> {
     let base = if hydrate_html.is_some() { 2 } else { 1 };
     let sig_spec = l[base].clone();
     let view = parse_view(&l[base + 1]);
-    let ops: Vec<Sx> = l[base + 2].list().to_vec();
+    // (clientpre SIGNALS VIEW (PREOPS) (OPS)): PREOPS are applied after the view has been built but BEFORE it is mounted (a component
+    // body that writes a signal an earlier sibling displays)
+    let (preops, ops): (Vec<Sx>, Vec<Sx>) = if l[0].atom() == "clientpre" {
+        (l[base + 2].list().to_vec(), l[base + 3].list().to_vec())
+    } else {
+        (Vec::new(), l[base + 2].list().to_vec())
+    };
     let mount = new_mount();
     let mnode: web_sys::Node = mount.clone().into();
     let mut out = Vec::new();
@@ -130,16 +136,27 @@ fn run_view(l: &[Sx], hydrate_html: Option<String>) -> Vec<String> {
         if hydrate_html.is_some() {
             hydrate_in_scope(|| build(&view, &sigs, None), &mnode);
         } else {
-            render_in_scope(|| build(&view, &sigs, None), &mnode);
+            render_in_scope(
+                || {
+                    let v = build(&view, &sigs, None);
+                    for op in &preops {
+                        sigs.apply(op);
+                    }
+                    v
+                },
+                &mnode,
+            );
         }
     });
     wasm_bindgen::run_microtasks();
     let sigs = sigs_slot.unwrap();
-    out.push(state_line(&mnode, &view, &sig_spec, &[]));
-    for (i, op) in ops.iter().enumerate() {
+    let mut applied: Vec<Sx> = preops.clone();
+    out.push(state_line(&mnode, &view, &sig_spec, &applied));
+    for op in ops.iter() {
         root.run_in(|| sigs.apply(op));
         wasm_bindgen::run_microtasks();
-        out.push(state_line(&mnode, &view, &sig_spec, &ops[..=i]));
+        applied.push(op.clone());
+        out.push(state_line(&mnode, &view, &sig_spec, &applied));
     }
     root.dispose();
     let _ = document().body().unwrap().remove_child(&mount);
@@ -188,7 +205,7 @@ fn run_scenario(line: &str) -> Vec<String> {
     // `hydratecf`: children-first mode of the view builder (see harness/common/viewspec.rs) for the whole scenario
     set_children_first(l[0].atom() == "hydratecf");
     let r = panic::catch_unwind(AssertUnwindSafe(|| match l[0].atom() {
-        "client" => run_view(l, None),
+        "client" | "clientpre" => run_view(l, None),
         "hydrate" | "hydratecf" => run_view(l, Some(unhex(l[1].atom()))),
         "reconcile" => run_reconcile(l),
         x => panic!("bad scenario {x}"),
